@@ -414,14 +414,17 @@ mod resolve_names {
             match siggy {
                 Some(siggy) => {
                     let MatchedArgs { positional_pairs } = siggy.match_params_to_args(&call.args);
+                    let mut num_matched = 0;
                     for (param, arg) in positional_pairs {
+                        num_matched += 1;
                         self.ty_color_stack.push(param.ty_color.clone().map(|x| x.value));
                         self.visit_expr(arg);
                         self.ty_color_stack.pop();
                     }
                     // Too many arguments is an error that the type checker reports later,
                     // but the names in the extra arguments must still be resolved (or diagnosed).
-                    for arg in call.args.iter().skip(siggy.params.len()) {
+                    // (not every parameter takes an argument: padding parameters are skipped)
+                    for arg in call.args.iter().skip(num_matched) {
                         self.visit_expr(arg);
                     }
                 },
